@@ -48,7 +48,9 @@ THEOREMS = [
     "Verif.C07.tether_maps_chosen_points",
     "Verif.C07.align_then_rotate_order_matters",
     # deepening round D
+    "Verif.C07.kymo_pixels_refine_reduce",
     "Verif.C07.kymo_pixels_refine",
+    "Verif.C07.reduce_max_min_spec",
     "Verif.C07.kymo_stack_ok_iff",
     "Verif.C07.kymoWindow_eq_pinned",
     "Verif.C07.F20b_witness",
@@ -226,6 +228,8 @@ def run_prog(stack, prog):
         elif k == "T":
             stack = stack.define_tether((st[1], st[2]), (st[3], st[4]))
         elif k == "k":
+            if len(st) > 2:  # the rarely used `reduce` option
+                return stack, stack.to_kymo(half_window=st[1], reduce={"sum": np.sum, "max": np.max, "min": np.min}[st[2]])
             return stack, stack.to_kymo(half_window=st[1])
         else:
             raise ValueError(k)
@@ -655,7 +659,7 @@ def prog_tokens(prog):
         elif k == "T":
             toks.append("T," + ",".join(enc_float(x) for x in st[1:5]))
         elif k == "k":
-            toks.append(f"k,{int(st[1])}")
+            toks.append(f"k,{int(st[1])}" + (f",{st[2]}" if len(st) > 2 else ""))
         else:
             raise ValueError(k)
     return " ".join(toks)
@@ -1100,13 +1104,14 @@ def oracle_kymo(spec, prog, pages, rows, cols, geo, ans):
         return f"kymo: expected a kymograph of {hi - lo} pixels x {len(pages)} lines, got {ans[:100]}"
     chans, lt, start = parse_kymo(ans)
     full = np.asarray(bt.full_array(spec), dtype=float)
-    sub = full[pages][:, rows[row - w] : rows[row + w] + 1, cols[lo] : cols[hi - 1] + 1].sum(axis=1)
+    sub = full[pages][:, rows[row - w] : rows[row + w] + 1, cols[lo] : cols[hi - 1] + 1]
+    sub = {"sum": sub.sum, "max": sub.max, "min": sub.min}[prog[-1][2] if len(prog[-1]) > 2 else "sum"](axis=1)
     sub = np.swapaxes(sub, 0, 1)
     if sub.ndim == 2:
         sub = np.repeat(sub[:, :, np.newaxis], 3, axis=2)
     for c in range(3):
         if chans[c].shape != sub[:, :, c].shape or not np.array_equal(chans[c], sub[:, :, c]):
-            return f"kymo-pixels: channel {c} differs from the tether-row pixels summed over +-{w} rows"
+            return f"kymo-pixels: channel {c} differs from the tether-row pixels reduced over +-{w} rows"
     if start != table[pages[0]][0]:
         return f"kymo-start: {start} vs first frame start {table[pages[0]][0]}"
     lt_exp = (table[pages[1]][0] - table[pages[0]][0]) * 1e-9
@@ -1822,6 +1827,9 @@ def cases(tier, rng):
                         if cut is not None:
                             prog.append(["c", cut, None, None, None])
                         yield prog_case("kymo-exhaustive", kspec, prog + [["k", hw]])
+                        if hw > 0 and cut in (None, 2) and y in (1, 2):
+                            for red in ("max", "min"):
+                                yield prog_case("kymo-exhaustive", kspec, prog + [["k", hw, red]])
     for spec in (
         bt.make_spec(files=(6,), exposure=[10_000_000, 20_000_000, 30_000_000, 40_000_000, 50_000_000, 60_000_000], **SMALL),
         bt.make_spec(files=(6,), exposure=[10_000_000, 10_000_000, 10_000_000, 10_000_000, 30_000_000, 10_000_000], **SMALL),
@@ -1865,6 +1873,8 @@ def cases(tier, rng):
             # crop after the tether (keeps the left end inside)
             prog.append(["c", None, sub.choice([None, cw - 1]) if cw - 1 > x1 + 2 else None, None, None])
         prog.append(["k", sub.choice([0, 0, 1, 1, 2])])
+        if sub.chance(0.25):
+            prog[-1].append(sub.choice(["sum", "max", "min"]))
         yield prog_case("kymo", spec, prog, subseed=i)
     # ---- where the pixels go: stacks showing two beads, tether through the beads at any angle (interpolated pixel
     # values), every colour channel, non-identity colour alignment, crops and frame selections before and after
@@ -1933,7 +1943,8 @@ def extra_coverage(results):
             a = r["impl"][0]
             if a.startswith("kymo "):
                 hw = c["prog"][-1][1]
-                key = "kymograph, half window " + ("0 (single row, no reduction)" if hw == 0 else "> 0 (rows summed)")
+                red = c["prog"][-1][2] if len(c["prog"][-1]) > 2 else "sum (default)"
+                key = "kymograph, half window " + ("0 (single row, no reduction)" if hw == 0 else f"> 0 (rows reduced with {red})")
                 if kymo_left_outside(c):
                     key += ", left tether end outside the image (clamped)"
                 if kymo_left_outside(c, whole=True):
